@@ -1151,6 +1151,17 @@ impl<T: TraceStorage> ChainProcess<T> {
                 let mut msg = stop_marker_rx.try_recv();
                 let mut draw = 0;
                 loop {
+                    #[cfg(nuts_rs_verif)]
+                    crate::verif_hooks::chain_event(
+                        chain_id,
+                        1,
+                        match &msg {
+                            Err(TryRecvError::Disconnected) => 0,
+                            Err(TryRecvError::Empty) => 1,
+                            Ok(ChainCommand::Pause) => 2,
+                            Ok(ChainCommand::Resume) => 3,
+                        },
+                    );
                     match msg {
                         // The remote end is dead
                         Err(TryRecvError::Disconnected) => {
@@ -1158,6 +1169,8 @@ impl<T: TraceStorage> ChainProcess<T> {
                         }
                         Err(TryRecvError::Empty) => {}
                         Ok(ChainCommand::Pause) => {
+                            #[cfg(nuts_rs_verif)]
+                            crate::verif_hooks::chain_event(chain_id, 2, draw as u64);
                             msg = stop_marker_rx.recv().map_err(|e| e.into());
                             continue;
                         }
@@ -1171,6 +1184,8 @@ impl<T: TraceStorage> ChainProcess<T> {
 
                     let now = Instant::now();
                     let (_point, mut draw_data, mut stats, info) = sampler.expanded_draw()?;
+                    #[cfg(nuts_rs_verif)]
+                    crate::verif_hooks::chain_event(chain_id, 3, draw as u64);
 
                     let mut guard = chain_trace
                         .lock()
@@ -1178,6 +1193,8 @@ impl<T: TraceStorage> ChainProcess<T> {
 
                     let Some(trace_val) = guard.as_mut() else {
                         // The trace was removed by controller thread. We can stop sampling
+                        #[cfg(nuts_rs_verif)]
+                        crate::verif_hooks::chain_event(chain_id, 4, draw as u64);
                         break;
                     };
                     progress
@@ -1194,6 +1211,8 @@ impl<T: TraceStorage> ChainProcess<T> {
                         &info,
                     )?;
 
+                    #[cfg(nuts_rs_verif)]
+                    crate::verif_hooks::chain_event(chain_id, 5, draw as u64 + 1);
                     draw += 1;
                     if draw == draws {
                         break;
@@ -1204,10 +1223,14 @@ impl<T: TraceStorage> ChainProcess<T> {
                 Ok(())
             };
 
+            #[cfg(nuts_rs_verif)]
+            crate::verif_hooks::chain_event(chain_id, 0, 0);
             let result = sample();
 
             // We intentionally ignore errors here, because this means some other
             // chain already failed, and should have reported the error.
+            #[cfg(nuts_rs_verif)]
+            crate::verif_hooks::chain_event(chain_id, 6, result.is_ok() as u64);
             let _ = results.send(result);
             drop(results);
         });
@@ -1370,6 +1393,8 @@ impl<F: Send + 'static> Sampler<F> {
                         // TODO return when all chains are done
                         match commands_rx.recv_timeout(timeout) {
                             Ok(SamplerCommand::Pause) => {
+                                #[cfg(nuts_rs_verif)]
+                                crate::verif_hooks::chain_event(u64::MAX, 10, 0);
                                 for chain in chains.iter() {
                                     // This failes if the thread is done.
                                     // We just want to ignore those threads.
@@ -1386,6 +1411,8 @@ impl<F: Send + 'static> Sampler<F> {
                                 })?;
                             }
                             Ok(SamplerCommand::Continue) => {
+                                #[cfg(nuts_rs_verif)]
+                                crate::verif_hooks::chain_event(u64::MAX, 11, 0);
                                 for chain in chains.iter() {
                                     // This failes if the thread is done.
                                     // We just want to ignore those threads.
